@@ -57,4 +57,8 @@ CHECKS["C11"] = dict(
 CHECKS["C12"] = dict(
    text="Held on the sampled (M0, gamma, Cv, Tref, rho0, cross-section, closure) profiles that the constructors produce: time translation through the public call with the sound speed computed from the user's parameters, constancy of mass/momentum/energy flux along the profile attributes, equilibrium end states. Sampling, not proof; ED's last profile point is a listed known finding; FLD closures are decided on mass flux, translation and end states only.",
    design_ref="5/C12", note=_T, technique="trace-invariant monitor on solver profile attributes + metamorphic time-translation relation on public calls")
+CHECKS["C14"] = dict(
+   text="Held on the sampled parameter sets: heat-equation residual, declared boundary operators, t->0+ initial profile, t->infinity static solution for Rod1D BC1-BC4 and the three sandwiches, Rectangle (PDE, top/bottom, initial data), Hutchens1 (PDE, surface, initial data). Sampling, not proof; five genuine defects (Rod1D Robin, Hutchens1 r=0, Hutchens2 accumulator, Rectangle sides, CylindricalSandwich) are listed known findings and are re-observed on every run.",
+   design_ref="5/C14", note=_T + "; series tolerances from the first omitted term; aspect ratios that overflow sinh/I0 are left to C20",
+   technique="PDE/boundary-operator residual monitor over recorded public calls (finite-difference oracle with error bars)")
 NOT_YET = {}
